@@ -59,6 +59,8 @@ def gen_data(r: random.Random) -> dict[str, Any]:
         d["d"] = {kk: gen_scalar(r) for kk in r.sample(KEYS, r.choice([0, 1, 2, 3]))}
     if r.random() < 0.8:
         d["s"] = r.choice(SCALAR_STRS)
+    if r.random() < 0.7:
+        d["flag"] = r.choice([True, False, 1, 0])
     return d
 
 
@@ -140,6 +142,16 @@ def gen_bool(r: random.Random, scope: list[str], depth: int = 2) -> tuple:
         return gen_primitive(r, scope)
     if k < 0.7:
         op = r.choice(CMPOPS)
+        if op in ("==", "!=", "<>") and r.random() < 0.45:
+            # operands that Python would (wrongly, for Liquid) consider equal, in both orders
+            pairs = [(("lit", True), ("lit", 1)), (("lit", False), ("lit", 0)), (("path", "flag", []), ("lit", 1)),
+                     (("path", "flag", []), ("lit", 0)), (("lit", 1), ("lit", "1")), (("lit", None), ("lit", False)),
+                     (("lit", ""), ("lit", "EMPTY")), (("lit", " "), ("lit", "BLANK")), (("path", "n", []), ("path", "flag", [])),
+                     (("lit", None), ("path", "zz", [])), (("path", "xs", []), ("lit", "EMPTY")), (("lit", 0), ("lit", None))]
+            a, b = r.choice(pairs)
+            if r.random() < 0.5:
+                a, b = b, a
+            return ("cmp", op, a, b)
         if op in ("<", ">", "<=", ">=") and r.random() < 0.8:
             # mostly well-typed orderings
             if r.random() < 0.6:
@@ -182,7 +194,16 @@ class Gen:
     def block(self, scope: list[str], depth: int, in_loop: bool, n: int | None = None) -> list[tuple]:
         r = self.r
         n = r.choice([0, 1, 1, 2, 2, 3]) if n is None else n
-        return [self.node(scope, depth, in_loop) for _ in range(n)]
+        out = []
+        for _ in range(n):
+            nd = self.node(scope, depth, in_loop)
+            out.append(nd)
+            if nd[0] == "for" and r.random() < 0.5:
+                # names bound inside the loop must be gone (or back to their outer value) afterwards
+                out.append(("output", ("path", nd[1], [])))
+                out.append(("output", ("path", "forloop", [("key", "index")])))
+                out.append(("output", ("path", r.choice(["w", "v", "a", "it"]), [])))
+        return out
 
     def node(self, scope: list[str], depth: int, in_loop: bool) -> tuple:
         r = self.r
@@ -220,7 +241,11 @@ class Gen:
                 alts = [gen_primitive(r, scope) for _ in range(r.choice([1, 1, 2]))]
                 whens.append((alts, self.block(scope, depth - 1, in_loop)))
             els = self.block(scope, depth - 1, in_loop) if r.random() < 0.6 else None
-            return ("case", gen_primitive(r, scope), whens, els)
+            subject = gen_primitive(r, scope)
+            if r.random() < 0.25:
+                subject = r.choice([("path", "flag", []), ("lit", True), ("lit", 1), ("path", "n", [])])
+                whens[0] = ([r.choice([("lit", 1), ("lit", True), ("lit", 0), ("lit", False)])], whens[0][1])
+            return ("case", subject, whens, els)
         if k < 0.8:
             x = r.choice(["i", "j", "x"])
             kk = r.random()
@@ -246,7 +271,11 @@ class Gen:
             return ("capture", r.choice(["c", "t"]), self.block(scope, depth - 1, in_loop))
         if k < 0.88:
             args = [(r.choice(["a", "w", "v"]), gen_primitive(r, scope)) for _ in range(r.choice([1, 1, 2]))]
-            return ("with", args, self.block(scope + [a for a, _ in args], depth - 1, in_loop))
+            body = self.block(scope + [a for a, _ in args], depth - 1, in_loop)
+            if in_loop and r.random() < 0.4:
+                ex = r.choice([("break",), ("continue",)])
+                body.append(ex if r.random() < 0.5 else ("if", gen_bool(r, scope, 1), [ex], [], None))
+            return ("with", args, body)
         if k < 0.9 and in_loop:
             return r.choice([("break",), ("continue",)])
         if k < 0.955 and self.partials:
@@ -282,6 +311,9 @@ def gen_program(r: random.Random, *, depth: int = 3, partials: bool = True) -> d
         for p in PARTIALS:
             gp = Gen(r, partials=r.random() < 0.35, max_nodes=10)
             loader[p] = gp.block(list(VARS) + ["it", "w", "v", p], 2, False, n=r.choice([1, 2, 3]))
+            if r.random() < 0.25:
+                ex = r.choice([("break",), ("continue",)])
+                loader[p].append(ex if r.random() < 0.5 else ("if", gen_bool(r, list(VARS), 1), [ex], [], None))
     return {"main": main, "loader": loader}
 
 
